@@ -336,6 +336,12 @@ def operator(prog: dict, seed: int, pause_at: int = -1, unpause_after: int = 3, 
                 for tgt in signal_targets(prog):
                     run.send_signal(tgt, True)
                 continue
+            if not rows and unpaused and not getattr(run, "_unpaused_again", False) and \
+                    run.proj.state()["wf"]["status"] in ("SUCCEEDED", "TERMINAL", "CANCELED", "STOPPED") and \
+                    not any(v["status"] == "PAUSED" for v in run.proj.state()["st"].values()):
+                run._unpaused_again = True      # a duplicate / late operator resume once the run is over: changes nothing
+                run.resume_store()
+                continue
             if not rows:
                 if restart and not restarted and restart_at < 0 and run.proj.state()["st"].get(restart, {}).get("status") in (
                         "SUCCEEDED", "TERMINAL", "CANCELED", "SKIPPED", "FAILED_CONTINUE", "STOPPED"):
